@@ -41,6 +41,8 @@ pub const OUTERS: &[(&str, &str)] = &[
   ("lambda.body", "(p) -> @"),
   ("lambda.typed.body", "(p: int, q: Str) -> @"),
   ("lambda0.body", "() -> @"),
+  ("lambda.mixed.body", "(p, q: int) -> @"),
+  ("lambda.mixed2.body", "(p: Str, q, r: bool) -> @"),
   ("block.value", "{ let z = #; @ }"),
   ("block.only", "{ @ }"),
   ("let.value", "{ let z = @; # }"),
@@ -63,7 +65,7 @@ pub const INNERS: &[(&str, &str)] = &[
   ("field", "a.foo"), ("method", "a.bar(b)"), ("method.targs", "a.bar<int, Str>(b)"), ("call", "f(a)"), ("call0", "f()"), ("static", "Foo.make(a)"), ("static.targs", "Foo.make<int>()"),
   ("if", "if c { a } else { b }"), ("iflet", "if let Some(v) = o { v } else { b }"), ("elseif", "if c { a } else if d { b } else { e }"),
   ("match", "match m { A -> a, B(w) -> w }"), ("match.or", "match m { A | C -> a, B(_) -> b }"), ("match.nested", "match m { B(D(w, _)) -> w, _ -> b }"), ("match.struct", "match m { { f1, f2 as g } -> f1 }"),
-  ("lambda", "(p) -> p"), ("lambda.typed", "(p: int) -> p"), ("lambda0", "() -> a"), ("lambda.fnty", "(p: (int) -> bool) -> p"),
+  ("lambda", "(p) -> p"), ("lambda.typed", "(p: int) -> p"), ("lambda0", "() -> a"), ("lambda.fnty", "(p: (int) -> bool) -> p"), ("lambda.mixed", "(p, q: int) -> p + q"), ("lambda.mixed2", "(p: int, q) -> q"), ("lambda.multi", "(p, q, r) -> q"),
   ("block", "{ let y = a; y }"), ("block.empty", "{  }"), ("block.stmt", "{ f(a); }"), ("block.let.pat", "{ let (y1, y2) = a; let { f1, f2 as g } = b; let Some(s) = c; y1 }"),
 ];
 
@@ -323,4 +325,131 @@ pub fn random_module(rng: &mut Rng) -> String {
     s.push_str("}\n\n");
   }
   s
+}
+
+// ---------------------------------------------------------------------------------------------
+// binder zoo: a well-typed module in which every binder form (parameter, let, tuple / struct /
+// variant pattern, shorthand and renamed fields, or-pattern alternatives, if-let, lambda
+// parameters with and without annotations, nested scopes with shadow-free reuse of field names)
+// occurs in every binding construct, and every binder is read zero to two times.
+
+fn rec_pat(rng: &mut Rng, names: &mut Vec<String>, n: &mut usize) -> String {
+  let mut bind = |stem: &str, names: &mut Vec<String>| {
+    *n += 1;
+    let v = format!("{stem}{}", *n);
+    names.push(v.clone());
+    v
+  };
+  match rng.below(6) {
+    // shorthand binds the field name itself: only once per scope
+    0 if !names.iter().any(|x| x == "x" || x == "y") => {
+      names.push("x".into());
+      names.push("y".into());
+      "{ x, y }".into()
+    }
+    1 if !names.iter().any(|x| x == "x") => {
+      names.push("x".into());
+      "{ x, y as _ }".into()
+    }
+    2 => format!("{{ x as {}, y as {} }}", bind("a", names), bind("b", names)),
+    3 if !names.iter().any(|x| x == "y") => {
+      names.push("y".into());
+      format!("{{ x as {}, y }}", bind("a", names))
+    }
+    4 => format!("{{ x as _, y as {} }}", bind("b", names)),
+    _ => bind("r", names),
+  }
+}
+
+fn sh_pat(rng: &mut Rng, names: &mut Vec<String>, n: &mut usize) -> String {
+  let sub = rec_pat(rng, names, n);
+  match rng.below(5) {
+    0 => format!("Dot({sub})"),
+    1 => format!("Dot({sub}) | Mark({sub})"),
+    2 => {
+      *n += 1;
+      let k = format!("k{}", *n);
+      names.push(k.clone());
+      format!("Two({sub}, {k}) | Duo({sub}, {k})")
+    }
+    3 => format!("Two({sub}, _)"),
+    _ => format!("Mark({sub}) | Dot({sub})"),
+  }
+}
+
+fn use_of(rng: &mut Rng, names: &[String]) -> String {
+  // records are read through a field, ints directly; every name is read 0..2 times
+  let mut terms: Vec<String> = vec!["1".into()];
+  for v in names {
+    for _ in 0..rng.below(3) {
+      terms.push(if v.starts_with('r') { format!("{v}.x") } else { v.clone() });
+    }
+  }
+  rng.shuffle(&mut terms);
+  terms.join(" + ")
+}
+
+pub fn binder_zoo(rng: &mut Rng) -> String {
+  let mut fns = String::new();
+  let nf = 3 + rng.below(5);
+  let mut n = 0usize;
+  for f in 0..nf {
+    let mut names: Vec<String> = Vec::new();
+    let body = match rng.below(7) {
+      0 => {
+        let p = sh_pat(rng, &mut names, &mut n);
+        format!("match s {{ {p} -> {}, _ -> 0 }}", use_of(rng, &names))
+      }
+      1 => {
+        let p = rec_pat(rng, &mut names, &mut n);
+        format!("{{ let {p} = r; {} }}", use_of(rng, &names))
+      }
+      2 => {
+        let p = sh_pat(rng, &mut names, &mut n);
+        format!("if let {p} = s {{ {} }} else {{ 0 }}", use_of(rng, &names))
+      }
+      3 => {
+        let p1 = sh_pat(rng, &mut names, &mut n);
+        let p2 = rec_pat(rng, &mut names, &mut n);
+        format!("match (s, r) {{ ({p1}, {p2}) -> {}, _ -> 0 }}", use_of(rng, &names))
+      }
+      4 => {
+        // lambda parameters (all / some / none annotated) capturing a pattern binder
+        let p = rec_pat(rng, &mut names, &mut n);
+        n += 2;
+        let (l1, l2) = (format!("p{}", n - 1), format!("q{n}"));
+        let params = match rng.below(4) {
+          0 => format!("{l1}: int, {l2}: int"),
+          1 => format!("{l1}, {l2}: int"),
+          2 => format!("{l1}: int, {l2}"),
+          _ => format!("{l1}, {l2}"),
+        };
+        let inner = use_of(rng, &names);
+        format!("{{ let {p} = r; Main.apply2(({params}) -> {l1} + {l2} + {inner}, c, 2) }}")
+      }
+      5 => {
+        // the same field names bound again in a nested scope of another arm
+        let mut n1: Vec<String> = Vec::new();
+        let p1 = sh_pat(rng, &mut n1, &mut n);
+        let u1 = use_of(rng, &n1);
+        let mut n2: Vec<String> = Vec::new();
+        let p2 = sh_pat(rng, &mut n2, &mut n);
+        let u2 = use_of(rng, &n2);
+        format!("match s {{ {p1} -> {u1}, _ -> if let {p2} = s {{ {u2} }} else {{ c }} }}")
+      }
+      _ => {
+        let (a, b) = (format!("t{}", n + 1), format!("t{}", n + 2));
+        n += 2;
+        names.push(a.clone());
+        names.push(b.clone());
+        let p = rec_pat(rng, &mut names, &mut n);
+        format!("{{ let ({a}, {b}) = (c, 2); let {p} = r; {} }}", use_of(rng, &names))
+      }
+    };
+    fns.push_str(&format!("  function f{f}(s: Sh, r: Rec, c: int): int = {body}\n"));
+  }
+  format!(
+    "class Rec(val x: int, val y: int) {{}}\nclass Sh(Dot(Rec), Mark(Rec), Two(Rec, int), Duo(Rec, int), Nil) {{}}\nclass Main {{\n  function apply2(f: (int, int) -> int, a: int, b: int): int = f(a, b)\n{fns}  function main(): unit = {{\n    let r = Rec.init(3, 4);\n{}  }}\n}}\n",
+    (0..nf).map(|f| format!("    Process.println(Str.fromInt(Main.f{f}(Sh.Two(r, 5), r, {f})));\n    Process.println(Str.fromInt(Main.f{f}(Sh.Mark(r), r, {f})));\n")).collect::<String>()
+  )
 }
